@@ -43,7 +43,9 @@ CHECKS = {
     'C13': dict(
         text='Commands.tla (on top of Collection.tla) defines undo as restoring the snapshot taken before the command and redo '
              'as re-execution; TLC checks this on the spec and enumerates every do/undo/redo word to a depth plus random deep '
-             'words over AddData, RemoveData, ApplySubsetState (all override modes) and ApplyROI; each word runs on a real '
+             'words over AddData, RemoveData, ApplySubsetState (all override modes) and ApplyROI, plus two undo-heavy graphs (every word '
+             'of <= 8 commands across the command that created a group; every word of <= 7 commands across a dataset removal); each '
+             'word runs on a real '
              'Session/CommandStack and datasets, groups, masks on every dataset, edit-subset choice and stack depths are '
              'compared after every step.',
         note='Bounded: 2-3 datasets, <=6 groups, MAX_UNDO set to the model bound (2-3). Collection compared as a set; group '
@@ -112,7 +114,8 @@ CHECKS = {
              'attribute by arithmetic on identifiers, by a user-function ComponentLink and by a parsed text expression, and read '
              'on the whole dataset and under 5 views; it must equal the TLC values (exact trees) or element-wise scalar evaluation '
              '(trees with / or **). The dependency half (transitive removal, update_id keeps order and values) is decided by '
-             'replaying the DataStruct.tla histories that involve derived attributes.',
+             'replaying the DataStruct.tla histories that involve derived attributes and, deeper (<= 5 operations), its dependency '
+             'sub-protocol NextDeps (define derived attributes in any order, reorder the list, remove).',
         note='Bounded: 6 attribute leaves + 2 constants, depth <= 2 (26k trees; quick samples a third of the depth-2 trees). '
              'Float trees compared within rtol 1e-12 (array vs scalar pow differ by 1 ulp). update_id only for attributes without dependants.',
         technique='TLA+ spec as enumerator and exact oracle + replay into real Data; DataStruct history replay',
@@ -193,10 +196,12 @@ CHECKS = {
         design='7/C09'),
     'C02': dict(
         text='Session.tla: TLC enumerates session compositions - every elementary selection kind the harness can build (found by '
-             'introspection of the tree under test) alone and nested under not / and / many-way or, every link helper class incl. the '
-             'celestial ones, a key join - followed by one or two SaveLoad steps, and checks SaveLoad is the identity on the abstract '
+             'introspection of the tree under test, incl. region selections with pretransform chains) alone and nested under not / and / '
+             'many-way or, every link helper class incl. the celestial ones, key joins of the three shapes (one-to-one, one key against '
+             'several, several against several) - followed by one or two SaveLoad steps, and checks SaveLoad is the identity on the abstract '
              'state; each composition is built from real objects, written by GlueSerializer and restored by GlueUnSerializer, and the '
-             'observable projection (labels, component order, values, world values, attributes readable through links with their '
+             'observable projection (labels, component order, values incl. a datetime column, codes and categories of a categorical '
+             'column with explicit category order and an unused category, world values, attributes readable through links with their '
              'values, mask of every group on every dataset, styles, metadata) compared before/after each SaveLoad (idempotence = the '
              'second one). Failing loudly at save time is allowed and counted; failing at load time is a violation.',
         note='Bounded: one group and one link helper per session (two groups and pairs of kinds in the thorough tier), 1-d and 2-d '
@@ -208,10 +213,14 @@ CHECKS = {
              'keys and versions 0..3 is replayed into the real class, comparing results and the whole stored state after every call; '
              '(b) the saver/loader registries and state_path_patches.txt of the current tree are extracted and handed to TLC as '
              'constants: versions consecutive from 1, a loader for every saver version, the rename walk terminates, in-package targets '
-             'import, no entry captures a concrete class this package still defines and writes; (c) every (Data version, '
-             'DataCollection version) pair is written with that version\'s saver and loaded by the normal unserializer.',
-        note='Equivalence of old versions compared on labels, component order, values, style (Data >= 2), meta (Data >= 5), groups and '
-             'masks (DataCollection >= 2). One open known finding (KF-C12-1, four captured class paths).',
+             'import, no entry captures a concrete class this package still defines and writes (each clause evaluated and reported on '
+             'its own); (c) VersionContent.tla states which features each (Data version, DataCollection version) pair carries (style, '
+             'meta, uuid, one-to-one and tuple key joins, derived components, links between datasets, link helpers, subset groups, the '
+             'group counter, coordinates, categorical components, stand-alone subsets): for every registered pair and every feature set '
+             'in the bound a collection exhibiting the features is written with that pair\'s savers, loaded by the normal unserializer '
+             'and every carried feature observed unchanged.',
+        note='Feature sets: quick |F| <= 2 or >= 12 of 13, thorough all 8192. Observations are behavioural (values, masks through '
+             'joins and links, labels of the next group, ...). One open known finding (KF-C12-1, four captured class paths).',
         technique='TLA+ spec + TLC over constants generated from the tree + replay into VersionedDict / pinned-version serializer',
         design='7/C12'),
     'C19': dict(
